@@ -111,6 +111,25 @@ def run_align(case):
     for p in plane:
         err = max(err, abs(tr.rotate_translate(p)[2]))
     below = [k for k in result if result[k].translation[2] <= 0]
+    if case.get('flip'):
+        # far outside the 30 degree envelope nothing is promised about convergence, but an answer that does satisfy the
+        # reference points up to the mirror ambiguity must have been turned the right way round
+        merr = float(np.max(np.abs(o)))
+        for p in xs:
+            q = tr.rotate_translate(p)
+            merr = max(merr, abs(q[1]), abs(q[2]))
+        for p in plane:
+            merr = max(merr, abs(tr.rotate_translate(p)[2]))
+        out.nontrivial = merr <= 1e-3
+        out.feat('flip-band-converged' if merr <= 1e-3 else 'flip-band-not-converged')
+        if merr <= 1e-3:
+            wrongx = [float(tr.rotate_translate(p)[0]) for p in xs if tr.rotate_translate(p)[0] <= 0]
+            first = list(cur_bs)[0]
+            if wrongx and len(wrongx) == len(xs):
+                out.fail('align:flip-not-corrected:x-axis', '%s: x-axis samples end up at x=%r' % (desc, wrongx))
+            elif result[first].translation[2] <= 0:
+                out.fail('align:flip-not-corrected:floor', '%s: first base station at z=%.3f' % (desc, result[first].translation[2]))
+        return out
     true_err = max(float(np.max(np.abs(result[k].translation - true_bs[k].translation))) for k in true_bs)
     if err > 1e-3 or below:
         # mechanism: does the library's own residual converge with more evaluations from the same start?
@@ -128,13 +147,15 @@ _unit = st.lists(st.floats(-1, 1, allow_nan=False), min_size=3, max_size=3).filt
 
 
 @st.composite
-def align_case(draw):
+def align_case(draw, flip=False):
     n = draw(st.integers(1, 6))
     stations = []
     ids = draw(st.lists(st.integers(0, 15), min_size=n, max_size=n, unique=True))
     for i in ids:
         stations.append({'id': i, 'pos': [draw(st.floats(-3, 3)), draw(st.floats(-3, 3)), draw(st.floats(1.2, 3.0))], 'axis': draw(_unit), 'angle': draw(st.floats(0, math.pi))})
     angle = draw(st.one_of(st.floats(0, 30), st.sampled_from([0.0, 5.0, 19.9, 25.0, 29.9])))
+    if flip:
+        angle = draw(st.one_of(st.floats(90, 180), st.sampled_from([180.0, 170.0, 150.0])))
     r = draw(st.one_of(st.floats(0, 3.0), st.sampled_from([0.0, 1.0, 2.0, 2.99])))
     d = np.array(draw(st.one_of(_unit, st.sampled_from([[0, 0, 1], [0, 0, -1], [1, 0, 0]]))), float)
     shift = [float(x) for x in d / np.linalg.norm(d) * r]
@@ -144,8 +165,11 @@ def align_case(draw):
     plane_points = []
     for _ in range(npl):
         plane_points.append([draw(st.floats(-2.0, 2.0)), draw(st.one_of(st.floats(0.4, 2.5), st.floats(-2.5, -0.4)))])
-    return {'axis': draw(_unit), 'angle': angle, 'shift': shift, 'stations': stations, 'x_points': x_points, 'plane_points': plane_points,
-            'noise': draw(st.sampled_from([0, 0, 0, 7]))}
+    axis = draw(_unit)
+    if flip:
+        axis = draw(st.one_of(_unit, st.sampled_from([[1.0, 0.0, 0.0], [0.0, 1.0, 0.0], [0.0, 0.0, 1.0], [1.0, 1.0, 0.0]])))
+    return {'axis': axis, 'angle': angle, 'shift': shift, 'stations': stations, 'x_points': x_points, 'plane_points': plane_points,
+            'noise': 0 if flip else draw(st.sampled_from([0, 0, 0, 7])), 'flip': flip}
 
 
 # ---------------------------------------------------------------- scaling
@@ -264,5 +288,6 @@ def scale_case(draw):
 def subchecks(tier):
     return [
         Sub('align', run_align, strategy=align_case(), examples={'quick': 1200, 'thorough': 60000}),
+        Sub('flips', run_align, strategy=align_case(flip=True), examples={'quick': 400, 'thorough': 20000}),
         Sub('scale', run_scale, strategy=scale_case(), examples={'quick': 400, 'thorough': 20000}),
     ]
